@@ -209,6 +209,16 @@ def produce(item, variant, rng, others):
     else:
         funcs = prog.python_functions(script)
     try:
+        if item["kind"] == "py":
+            # (the alias-sensitive class of section 1: the interpreter's result legitimately depends on the
+            # schedule, i.e. on set iteration order)
+            try:
+                rs, _ = backends.rseq_result(script)
+                if rs.alias_sensitive:
+                    out["interp"] = "ALIAS-SENSITIVE (not compared)"
+                    return out
+            except Exception:
+                pass
         r = backends.run_interpreter(dag, script, funcs)
         ev = [[_round(x) for x in e] for e in r.events]
         st = [({k: _round(v) for k, v in sorted(s.items())}, n) for s, n in r.persist_after]
